@@ -22,6 +22,14 @@ let record_of (s : Stdlib.String.t) : n list =
 let file_of (s : Stdlib.String.t) : n list list =
   if s = "-" then [] else Stdlib.List.map record_of (Stdlib.String.split_on_char ',' s)
 
+(* an OCaml string as a Coq string (ExtrOcamlBasic keeps Coq's string/ascii datatypes) *)
+let coq_string_of (s : Stdlib.String.t) : string =
+  let bit c i = (Char.code c lsr i) land 1 = 1 in
+  let rec go i acc = if i < 0 then acc else
+    let c = s.[i] in
+    go (i - 1) (String (Ascii (bit c 0, bit c 1, bit c 2, bit c 3, bit c 4, bit c 5, bit c 6, bit c 7), acc)) in
+  go (Stdlib.String.length s - 1) EmptyString
+
 let handle (toks : Stdlib.String.t list) : Stdlib.String.t =
   match toks with
   | ["check_some"; md; csz; f; l] ->
@@ -98,4 +106,10 @@ let handle (toks : Stdlib.String.t list) : Stdlib.String.t =
                        GFollow; GTopCheck i1; GClear i1; GServer (i1, lb); GCheck (i1, lb); GAof (i1, lb); GDeliver i1] in
       let w2 = run w1 [GAof (i0, [])] in
       Printf.sprintf "before=%s after=%s" (Conv.bool_str w1.w_cup) (Conv.bool_str w2.w_cup)
+  (* stream_error <sentinel> : what followHandleCommand does with a streamed command that returns that error, by the tolerated
+     set the theorems are stated for (Model/FollowTol.v proved_tolerated; c06t_tolerated_from_source): skip = the record is
+     skipped and the stream goes on, fatal = the attempt fails (retry, not caught up); state_only = the model's classification *)
+  | ["stream_error"; name] ->
+      let n = coq_string_of name in
+      Printf.sprintf "%s state_only=%s" (if mem_name n proved_tolerated then "skip" else "fatal") (Conv.bool_str (state_only_name n))
   | _ -> "?unknown"
